@@ -230,6 +230,35 @@ def nonConfigFlags : List String := ["home", "signer.passphrase"]
 /-- fields that deliberately are not options: the root directory (set from `--home`) -/
 def nonConfigFields : List String := ["RootDir"]
 
+/-! ### the generated tables are populated
+
+Every obligation below ranges over `table.fields` / `table.flags`; on empty (or truncated) lists
+they would hold vacuously.  The lists are therefore tied to a pinned minimum and to the SOURCE: the
+`Flag*` string constants of `pkg/config/config.go` (`Gen.C18.flagConstants`, read with go/parser,
+not by asking the compiled code). -/
+
+/-- options every configuration of this node has had since the property was written (pinned) -/
+def pinnedOptions : List String :=
+  ["DBPath", "ChainID", "Node.Aggregator", "Node.Light", "Node.BlockTime", "Node.LazyMode", "Node.LazyBlockInterval",
+   "DA.Address", "DA.AuthToken", "DA.GasPrice", "DA.GasMultiplier", "DA.Namespace", "DA.BlockTime", "DA.StartHeight", "DA.MempoolTTL",
+   "P2P.ListenAddress", "P2P.Peers", "Signer.SignerType", "Signer.SignerPath", "RPC.Address",
+   "Instrumentation.Prometheus", "Instrumentation.Namespace", "Log.Level", "Log.Format"]
+
+/-- the tables are not empty, not truncated: pinned minimum sizes, the pinned options are there, and
+every `Flag*` constant the source declares is a registered flag of the table (and there are at
+least 30 of them, so an empty constant list cannot pass either) -/
+theorem C18_tables_populated :
+    table.fields.length ≥ 35 ∧ table.flags.length ≥ 35 ∧
+    (∀ o ∈ pinnedOptions, o ∈ table.fields.map (·.go)) ∧
+    Gen.C18.flagConstants.length ≥ 30 ∧
+    (∀ c ∈ Gen.C18.flagConstants, c.2 ∈ table.flags.map (·.name)) ∧
+    Gen.C18.flagNames.length = table.flags.length := by decide
+
+/-- every registered flag that carries the prefix `rollkit.` comes from a `Flag*` constant of the source -/
+theorem C18_flags_are_declared :
+    ∀ fl ∈ table.flags, "rollkit.".toList.isPrefixOf fl.name.toList = true →
+      fl.name ∈ Gen.C18.flagConstants.map (·.2) := by decide
+
 /-- **The table of the compiled code has every table fact**: every registered flag (other than
 `--home` and the signer passphrase) is bound to the key of exactly one option, every field (other
 than `RootDir`) is written by `SaveAsYaml` under the key `Load` decodes it from, keys and names are
